@@ -73,8 +73,18 @@ func runC19(c *Ctx) {
 					continue
 				}
 				args := c2.Common().Args
-				for _, ev := range c.U.ContainerElems(args[len(args)-1]) {
+				elems := c.U.ContainerElems(args[len(args)-1])
+				for _, ev := range elems {
 					if ev == opt {
+						// nothing but the directories is configured: any other option (auto-refresh off, ...)
+						// would make the tool's cache differ from the library's default one
+						var others []string
+						for _, e2 := range elems {
+							if e2 != opt {
+								others = append(others, c.exprDesc(e2))
+							}
+						}
+						r.Check("C19.1", "only-the-directories-configured", len(others) == 0, c.pos(c2), fmt.Sprintf("the command line configures the default cache with the directories and nothing else (other options: %v)", others))
 						if c.U.CalleeIs(c2, "cdi", "Configure") {
 							configured = true
 							cfgFn = fn
